@@ -35,23 +35,31 @@ struct weekday {
 
     constexpr auto operator++() noexcept -> weekday& { return *this += etl::chrono::days{1}; }
 
-    constexpr auto operator++(int) noexcept -> weekday { return *this += etl::chrono::days{1}; }
+    constexpr auto operator++(int) noexcept -> weekday
+    {
+        auto tmp = *this;
+        *this += etl::chrono::days{1};
+        return tmp;
+    }
 
     constexpr auto operator--() noexcept -> weekday& { return *this -= etl::chrono::days{1}; }
 
-    constexpr auto operator--(int) noexcept -> weekday { return *this -= etl::chrono::days{1}; }
+    constexpr auto operator--(int) noexcept -> weekday
+    {
+        auto tmp = *this;
+        *this -= etl::chrono::days{1};
+        return tmp;
+    }
 
     constexpr auto operator+=(days const& d) noexcept -> weekday&
     {
-        _wd += d.count();
-        _wd %= 7;
+        _wd = add_days(_wd, static_cast<long long>(d.count()));
         return *this;
     }
 
     constexpr auto operator-=(days const& d) noexcept -> weekday&
     {
-        _wd -= d.count();
-        _wd %= 7;
+        _wd = add_days(_wd, -static_cast<long long>(d.count()));
         return *this;
     }
 
@@ -73,6 +81,13 @@ struct weekday {
     }
 
 private:
+    [[nodiscard]] static constexpr auto add_days(etl::uint8_t wd, long long d) noexcept -> etl::uint8_t
+    {
+        auto const wdu = static_cast<long long>(wd) + d;
+        auto const wk  = (wdu >= 0 ? wdu : wdu - 6) / 7;
+        return static_cast<etl::uint8_t>(wdu - wk * 7);
+    }
+
     [[nodiscard]] static constexpr auto weekday_from_days(int tp) noexcept -> etl::uint8_t
     {
         return static_cast<etl::uint8_t>(tp >= -4 ? (tp + 4) % 7 : (tp + 5) % 7 + 6);
@@ -83,14 +98,18 @@ private:
 
 [[nodiscard]] constexpr auto operator+(weekday const& lhs, days const& rhs) noexcept -> weekday
 {
-    return weekday{static_cast<unsigned>((static_cast<int32_t>(lhs.c_encoding()) + rhs.count()) % 7)};
+    auto tmp = lhs;
+    tmp += rhs;
+    return tmp;
 }
 
 [[nodiscard]] constexpr auto operator+(days const& lhs, weekday const& rhs) noexcept -> weekday { return rhs + lhs; }
 
 [[nodiscard]] constexpr auto operator-(weekday const& lhs, days const& rhs) noexcept -> weekday
 {
-    return weekday{static_cast<unsigned>((static_cast<int32_t>(lhs.c_encoding()) - rhs.count()) % 7)};
+    auto tmp = lhs;
+    tmp -= rhs;
+    return tmp;
 }
 
 [[nodiscard]] constexpr auto operator-(weekday const& lhs, weekday const& rhs) noexcept -> days
